@@ -295,6 +295,7 @@ impl<M: Manager, W: From<Object<M>>> Pool<M, W> {
                     vec: VecDeque::with_capacity(builder.config.max_size),
                     size: 0,
                     max_size: builder.config.max_size,
+                    debt: 0,
                 }),
                 users: AtomicUsize::new(0),
                 semaphore: Semaphore::new(builder.config.max_size),
@@ -335,22 +336,39 @@ impl<M: Manager, W: From<Object<M>>> Pool<M, W> {
             None => false,
         };
 
+        // A permit obtained while the pool still owes permits to an earlier
+        // shrink is retired instead of being used.
         let permit = if non_blocking {
-            self.inner.semaphore.try_acquire().map_err(|e| match e {
-                TryAcquireError::Closed => PoolError::Closed,
-                TryAcquireError::NoPermits => PoolError::Timeout(TimeoutType::Wait),
-            })?
+            loop {
+                let permit = self.inner.semaphore.try_acquire().map_err(|e| match e {
+                    TryAcquireError::Closed => PoolError::Closed,
+                    TryAcquireError::NoPermits => PoolError::Timeout(TimeoutType::Wait),
+                })?;
+                if self.inner.pay_debt() {
+                    permit.forget();
+                } else {
+                    break permit;
+                }
+            }
         } else {
             apply_timeout(
                 self.inner.runtime,
                 TimeoutType::Wait,
                 timeouts.wait,
                 async {
-                    self.inner
-                        .semaphore
-                        .acquire()
-                        .await
-                        .map_err(|_| PoolError::Closed)
+                    loop {
+                        let permit = self
+                            .inner
+                            .semaphore
+                            .acquire()
+                            .await
+                            .map_err(|_| PoolError::Closed)?;
+                        if self.inner.pay_debt() {
+                            permit.forget();
+                        } else {
+                            break Ok::<_, PoolError<M::Error>>(permit);
+                        }
+                    }
                 },
             )
             .await?
@@ -496,15 +514,14 @@ impl<M: Manager, W: From<Object<M>>> Pool<M, W> {
         slots.max_size = max_size;
         // shrink pool
         if max_size < old_max_size {
-            while slots.size > slots.max_size {
+            // Retire one permit for every slot that is taken away. Permits
+            // which are in use right now are recorded as debt and retired
+            // when they come back.
+            for _ in 0..(old_max_size - max_size) {
                 if let Ok(permit) = self.inner.semaphore.try_acquire() {
                     permit.forget();
-                    if let Some(obj) = slots.vec.pop_front() {
-                        slots.size -= 1;
-                        released.push(obj);
-                    }
                 } else {
-                    break;
+                    slots.debt += 1;
                 }
             }
             // The permit of an idle object can be unavailable for a moment
@@ -530,7 +547,11 @@ impl<M: Manager, W: From<Object<M>>> Pool<M, W> {
         if max_size > old_max_size {
             let additional = slots.max_size - old_max_size;
             slots.vec.reserve_exact(additional);
-            self.inner.semaphore.add_permits(additional);
+            // Slots taken away by an earlier shrink whose permits are still
+            // outstanding are handed back first.
+            let cancelled = additional.min(slots.debt);
+            slots.debt -= cancelled;
+            self.inner.semaphore.add_permits(additional - cancelled);
         }
         drop(slots);
         // Objects released by a shrink leave the pool for good, so the
@@ -685,6 +706,9 @@ struct Slots<T> {
     vec: VecDeque<T>,
     size: usize,
     max_size: usize,
+    /// Number of permits a shrink of the pool could not retire right away
+    /// because they were in use. They are retired as they come back.
+    debt: usize,
 }
 
 // Implemented manually to avoid unnecessary trait bound on the struct.
@@ -707,6 +731,18 @@ where
 }
 
 impl<M: Manager> PoolInner<M> {
+    /// If the pool still owes a permit to an earlier shrink the debt is
+    /// reduced by one and `true` is returned: the caller must retire the
+    /// permit it has just obtained instead of using it.
+    fn pay_debt(&self) -> bool {
+        let mut slots = self.slots.lock().unwrap();
+        if slots.debt > 0 {
+            slots.debt -= 1;
+            true
+        } else {
+            false
+        }
+    }
     fn return_object(&self, mut inner: ObjectInner<M>) {
         #[cfg(deadpool_verif)]
         crate::verif::point("return:enter", self as *const Self as usize);
@@ -714,15 +750,22 @@ impl<M: Manager> PoolInner<M> {
         #[cfg(deadpool_verif)]
         crate::verif::point("return:users_dec", self as *const Self as usize);
         let mut slots = self.slots.lock().unwrap();
-        if slots.size <= slots.max_size {
+        if slots.debt == 0 && slots.size <= slots.max_size {
             slots.vec.push_back(inner);
             drop(slots);
             #[cfg(deadpool_verif)]
             crate::verif::point("return:pushed", self as *const Self as usize);
             self.semaphore.add_permits(1);
         } else {
+            let owed = slots.debt > 0;
+            if owed {
+                slots.debt -= 1;
+            }
             slots.size -= 1;
             drop(slots);
+            if !owed {
+                self.semaphore.add_permits(1);
+            }
             #[cfg(deadpool_verif)]
             crate::verif::point("return:surplus", self as *const Self as usize);
             self.manager.detach(&mut inner.obj);
@@ -733,7 +776,10 @@ impl<M: Manager> PoolInner<M> {
         crate::verif::point("detach:enter", self as *const Self as usize);
         let _ = self.users.fetch_sub(1, Ordering::Relaxed);
         let mut slots = self.slots.lock().unwrap();
-        let add_permits = slots.size <= slots.max_size;
+        let add_permits = slots.debt == 0;
+        if !add_permits {
+            slots.debt -= 1;
+        }
         slots.size -= 1;
         drop(slots);
         #[cfg(deadpool_verif)]
